@@ -507,9 +507,9 @@ func (in *Interp) runSeeded(fd *ast.FuncDecl, symbolicParams bool) *Result {
 		it := work[len(work)-1]
 		work = work[:len(work)-1]
 		res.States++
-		if res.States > 200000 {
+		if res.States > stateCap {
 			e := &Exit{State: newState()}
-			e.State.undecided("state space exceeded 200000 (block,state) pairs")
+			e.State.undecided("state space exceeded 10000 (block,state) pairs")
 			res.Exits = append(res.Exits, e)
 			break
 		}
@@ -2218,3 +2218,8 @@ func (r *run) throughLocal(e ast.Expr) string {
 	}
 	return r.in.exprText(e)
 }
+
+// stateCap bounds the (block, abstract state) pairs explored per function. The evaluators of the pinned tree and of
+// every stored refactoring set need a few hundred at most; a function that exceeds the cap is reported as undecided
+// (the check fails) instead of exhausting time and memory.
+const stateCap = 10000
